@@ -17,9 +17,11 @@ import (
 // (C18 binary leg: "spok stops with a message instead of dying").
 type HashBinCase struct {
 	// ProjDir names the directory holding the spokfile ("" = proj)
-	ProjDir string   `json:"proj_dir,omitempty"`
-	Kinds   []string `json:"kinds"` // regular dir missing dangling symlink unreadable
-	Flags   []string `json:"flags"`
+	ProjDir string `json:"proj_dir,omitempty"`
+	// Invoke: how spok is pointed at the project (sandbox.Box.Invoke)
+	Invoke string   `json:"invoke,omitempty"`
+	Kinds  []string `json:"kinds"` // regular dir missing dangling symlink unreadable
+	Flags  []string `json:"flags"`
 }
 
 var hashBinKinds = []string{"regular", "regular", "dir", "missing", "dangling", "symlink", "unreadable", "empty"}
@@ -27,6 +29,7 @@ var hashBinKinds = []string{"regular", "regular", "dir", "missing", "dangling", 
 func genHashBin(t *rapid.T) HashBinCase {
 	c := genHashBinBody(t)
 	c.ProjDir = genProjDir(t)
+	c.Invoke = genInvoke(t)
 	return c
 }
 
@@ -41,7 +44,7 @@ func genHashBinBody(t *rapid.T) HashBinCase {
 }
 
 func execHashBin(s *ev.Shard, b *sandbox.Box, c HashBinCase) *rp.Fail {
-	if err := b.ResetAs(c.ProjDir); err != nil {
+	if err := b.ResetFor(c.ProjDir, c.Invoke); err != nil {
 		return &rp.Fail{Sig: "harness", Msg: err.Error()}
 	}
 	var deps []string
